@@ -151,6 +151,10 @@ def compare(repo: Repo, consulted=None) -> dict:
             if name.startswith("class ") and name not in rt:
                 res.setdefault("new_classes", []).append(f"{rel}:{name}")
         cf, rf = _functions(cur_t), _functions(ref_t)
+        try:
+            cf_raw, rf_raw = _functions(ast.parse(repo.source(rel))), _functions(ast.parse(ref_ov[rel]))
+        except Exception:  # noqa: BLE001
+            cf_raw, rf_raw = {}, {}
         bases = _class_bases(cur_t)
         pure_extra = set()
         for q, f in rf.items():
@@ -159,6 +163,10 @@ def compare(repo: Repo, consulted=None) -> dict:
                 continue
             if ast.dump(equiv._strip_doc(cf[q])) == ast.dump(equiv._strip_doc(f)):
                 res["functions_identical"] += 1
+                continue
+            # the sources as written, before normalisation: the same up to the names of the locals
+            if q in cf_raw and q in rf_raw and equiv.signature(cf_raw[q]) == equiv.signature(rf_raw[q]) and equiv.alpha_equal(cf_raw[q], rf_raw[q]):
+                res["functions_proven"].append(f"{rel}:{q}")
                 continue
             ok, why = equiv.equivalent(cf[q], f, consts, pure_extra)
             if ok:
@@ -218,7 +226,10 @@ def hybrid_overlay(repo: Repo, consulted=None):
                 continue
             if ast.dump(equiv._strip_doc(cf)) == ast.dump(equiv._strip_doc(rf)) and ast.dump(equiv._strip_doc(cur_raw[q])) == ast.dump(equiv._strip_doc(ref_raw[q])):
                 continue
-            ok, why = equiv.equivalent(cf, rf, consts)
+            if equiv.signature(cur_raw[q]) == equiv.signature(ref_raw[q]) and equiv.alpha_equal(cur_raw[q], ref_raw[q]):
+                ok, why = True, ""
+            else:
+                ok, why = equiv.equivalent(cf, rf, consts)
             if ok:
                 proven.append(f"{rel}:{q}")
                 edits.append((_def_span(cur_raw[q]), _def_span(ref_raw[q])))
